@@ -157,6 +157,40 @@ def correspond(model_ok, res):
     eq_cases, eq_payload = [], []
     kinds = {}
     seen = set()
+    # instances of the documented base classes and of user subclasses (outside the Coq model, whose node kinds are
+    # the concrete classes): Python oracle only.  Equal exactly when same class and same content; symmetric.
+    class MyWord(T.Word):
+        pass
+
+    class MyAnd(T.AndOperation):
+        pass
+
+    W = T.Word
+    singles = [T.Term("a"), W("a"), MyWord("a"), T.Phrase('"a"'), T.Regex("/a/"), T.Item(), T.NoneItem(),
+               T.Unary(W("a")), T.Plus(W("a")), T.Not(W("a")), T.Prohibit(W("a")),
+               T.BaseOperation(W("a"), W("b")), T.AndOperation(W("a"), W("b")), MyAnd(W("a"), W("b")),
+               T.OrOperation(W("a"), W("b")), T.UnknownOperation(W("a"), W("b")), T.BoolOperation(W("a"), W("b")),
+               T.BaseGroup(W("a")), T.Group(W("a")), T.FieldGroup(W("a")),
+               T.OpenRange(W("a")), T.From(W("a")), T.To(W("a"))]
+    import copy as _copy
+    wrappers = [lambda x: x, lambda x: T.Group(x), lambda x: T.Not(T.Group(x)),
+                lambda x: T.AndOperation(W("z"), x), lambda x: T.SearchField("f", x)]
+    base_pairs = 0
+    for wi, wrap in enumerate(wrappers):
+        objs = [(type(o).__name__, wrap(_copy.deepcopy(o))) for o in singles]
+        for i, (ka, a) in enumerate(objs):
+            for j, (kb, b) in enumerate(objs):
+                base_pairs += 1
+                want = i == j
+                try:
+                    got = (a == b)
+                except Exception as e:
+                    got = "raised %r" % (e,)
+                if got is not want:
+                    res.failures.append(({"why": "equality between items of classes %s and %s (base classes / user "
+                                                 "subclasses included): equal exactly when same class and content"
+                                                 % (ka, kb), "wrapper": wi, "a": repr(a)[:200], "b": repr(b)[:200],
+                                          "a==b": got, "expected": want}, None))
     for _ in range(npairs):
         a = g.tree(r.randrange(0, 4))
         if r.random() < 0.8:
